@@ -171,6 +171,9 @@ pub const C07_ROOTS: &[&str] = &[
     "position fen 8/8/4k3/8/8/3K4/3P4/8 w - - 0 1",              // KPK
     "position fen r1bqkb1r/pppp1ppp/2n2n2/4p2Q/2B1P3/8/PPPP1PPP/RNB1K1NR w KQkq - 4 4", // scholar's mate available
     "position fen 8/8/8/8/8/2k5/1q6/K7 w - - 0 1",               // root in check, one move
+    "position fen 7k/5K2/8/8/8/8/8/6Q1 b - - 0 1",              // the side to move is mated next move whatever it does
+    "position fen 8/8/8/8/8/1k6/8/K6r w - - 0 1",               // lost KRK, in check
+    "position fen 7k/8/8/8/8/8/6q1/K7 w - - 0 1",               // lost KQK
     // roots with a preloaded repetition record in which a repetition move exists
     "position fen 8/8/k7/p7/P7/K7/8/8 w - - 0 1 moves a3b3 a6b6 b3a3 b6a6",
     "position fen 7k/8/8/8/8/8/R7/K7 w - - 0 1 moves a2b2 h8g8 b2a2 g8h8 a2b2 h8g8 b2a2 g8h8",
